@@ -6,12 +6,22 @@ Arrays are a shape plus an index function (`Arr2`, `Arr3`); every NumPy step of 
 function on them (column slice with Python's index normalisation, `np.repeat`, `.T`, assignment
 into a slot of `np.empty`/`np.zeros`, `np.mean(axis=2)`).  A step whose NumPy counterpart raises
 because two shapes differ returns `none`.  (Broadcasting of a length-1 axis in an assignment is not
-modelled: it cannot occur for crossed stacks, the only ones the property quantifies over.)
+modelled: NumPy would accept a prepared layer with an axis of length 1 where the model answers `none`.
+For crossed stacks - the only ones the property quantifies over - an accepted configuration makes every
+prepared layer exactly as large as its slot (`valid_implies_shapes_agree`), so the rule is never used;
+`harness/c09.py` re-checks this on every accepted case: the model's answer `none` against a successful
+real reconstruction is a reported difference.  It can only happen for configurations the validity check
+rejects, e.g. one line per layer and too few samples.)
+
+Floating point: every float64 operation of `SRRConfig` whose result decides an integer (the warm-up
+quotient `seconds / scantime`, `magnification = spotsize / (speed * scantime)`, `1.0 / magnification`)
+and the `warmup` getter `_warmup * scantime` are modelled exactly: `fl` rounds the exact rational
+result to the nearest float64 (ties to even, normal range).  Inputs are the exact values of the floats.
 
 Mechanism: `validForData`, `aligned` (lengths, trimming, stretching, transposition, stacking),
 `subpixelOffset` (effective offsets, overlap, zero canvas, block placement), `krisskross`,
-`getLayer`, `getFlat`, `SrrConfig.make / toArray / fromArray`.
-Specification: `voxel`, the closed geometric formula of one output voxel.
+`getLayer`, `getFlat`, `srrGet`, `SrrConfig.make / apply (setters) / toArray / fromArray / toRec / fromRec`.
+Specification: `voxel`, the closed geometric formula of one output voxel; `validSpec`; `layerSpec`.
 -/
 namespace Pew
 
@@ -74,6 +84,28 @@ def roundHalfEven (x : Rat) : Int :=
 /-- round half up: `⌊x + 1/2⌋` -/
 def roundHalfUp (x : Rat) : Int := (x + 1 / 2).floor
 
+/-! ## float64 -/
+
+/-- `a / 2^k` for an integer `k` -/
+def scale2 (a : Rat) (k : Int) : Rat :=
+  if 0 ≤ k then a / ((2 ^ k.toNat : Nat) : Rat) else a * ((2 ^ (-k).toNat : Nat) : Rat)
+
+/-- the float64 nearest to `x` (round to nearest, ties to even; exponent range not modelled: no overflow,
+no subnormals): the significand `q = |x| / 2^k` is brought into `[2^52, 2^53)` and rounded half-even.
+(`⌊log₂ num⌋ - ⌊log₂ den⌋` is `⌊log₂ |x|⌋` or one more, hence the single adjustment; the last `else` is never
+taken and keeps the definition total without a proof about `Nat.log2`.) -/
+def fl (x : Rat) : Rat :=
+  if x = 0 then 0 else
+  let a := if x < 0 then -x else x
+  let e0 : Int := (Nat.log2 a.num.natAbs : Int) - (Nat.log2 a.den : Int)
+  let e := if scale2 a (e0 - 52) < 4503599627370496 then e0 - 1 else e0
+  let k := e - 52
+  let q := scale2 a k
+  if 4503599627370496 ≤ q ∧ q < 9007199254740992 then
+    let r := scale2 (roundHalfEven q : Rat) (-k)
+    if x < 0 then -r else r
+  else x
+
 namespace Srr
 
 /-! ## configuration (`SRRConfig`) -/
@@ -92,23 +124,62 @@ structure SrrConfig where
 /-- `np.lcm.reduce` -/
 def lcmList (l : List Nat) : Nat := l.foldl Nat.lcm 1
 
-/-- `__init__`: the `warmup` setter (`np.round(seconds / scantime).astype(int)`) and the
-`subpixel_offsets` setter (`lcm.reduce` of the denominators, `offset * size // denominator`) -/
+/-- the `warmup` setter: `np.round(seconds / self.scantime).astype(int)` (one float division, then half-even) -/
+def SrrConfig.setWarmup (c : SrrConfig) (seconds : Rat) : SrrConfig :=
+  { c with warmup := roundHalfEven (fl (seconds / c.scantime)) }
+
+/-- the `subpixel_offsets` setter: `lcm.reduce` of the denominators, `offset * size // denominator` -/
+def SrrConfig.setOffsets (c : SrrConfig) (pairs : List (Nat × Nat)) : SrrConfig :=
+  let size := lcmList (pairs.map (·.2))
+  { c with size := size, offs := pairs.map (fun od => od.1 * size / od.2) }
+
+/-- `set_equal_subpixel_offsets(width)`: offsets `arange(0, width)`, sub-pixel size `width` -/
+def SrrConfig.setEqualOffsets (c : SrrConfig) (width : Nat) : SrrConfig :=
+  { c with size := width, offs := List.range width }
+
+/-- assignment of the three raster attributes (`_warmup` stays what it is, in samples) -/
+def SrrConfig.setParams (c : SrrConfig) (spotsize speed scantime : Rat) : SrrConfig :=
+  { c with spotsize := spotsize, speed := speed, scantime := scantime }
+
+/-- `__init__`: the raster parameters, then the `warmup` setter, then the `subpixel_offsets` setter -/
 def SrrConfig.make (spotsize speed scantime warmupSeconds : Rat) (pairs : List (Nat × Nat)) : SrrConfig :=
   let size := lcmList (pairs.map (·.2))
   { spotsize := spotsize, speed := speed, scantime := scantime,
-    warmup := roundHalfEven (warmupSeconds / scantime),
+    warmup := roundHalfEven (fl (warmupSeconds / scantime)),
     size := size,
     offs := pairs.map (fun od => od.1 * size / od.2) }
 
-/-- `warmup` getter (seconds) -/
-def SrrConfig.warmupSeconds (c : SrrConfig) : Rat := (c.warmup : Rat) * c.scantime
+/-- a change of a configuration object through its public interface -/
+inductive CfgOp
+  | warmup (seconds : Rat)
+  | offsets (pairs : List (Nat × Nat))
+  | equalOffsets (width : Nat)
+  | params (spotsize speed scantime : Rat)
+  | replace (spotsize speed scantime warmupSeconds : Rat) (pairs : List (Nat × Nat))   -- a new object
+  deriving Repr
+
+def SrrConfig.apply (c : SrrConfig) : CfgOp → SrrConfig
+  | .warmup s => c.setWarmup s
+  | .offsets ps => c.setOffsets ps
+  | .equalOffsets w => c.setEqualOffsets w
+  | .params a b t => c.setParams a b t
+  | .replace a b t w ps => SrrConfig.make a b t w ps
+
+/-- the specification of the warm-up in samples: the exact quotient rounded half-even.  It can differ from the
+setter only when the float rounding of the quotient crosses a rounding tie; such inputs are undetermined. -/
+def warmupSpec (seconds scantime : Rat) : Int := roundHalfEven (seconds / scantime)
+
+/-- `warmup` getter (seconds): `self._warmup * self.scantime` -/
+def SrrConfig.warmupSeconds (c : SrrConfig) : Rat := fl ((c.warmup : Rat) * c.scantime)
 
 /-- `subpixel_offsets` getter: rows `[offset, size]` -/
 def SrrConfig.subpixelOffsets (c : SrrConfig) : List (Nat × Nat) := c.offs.map (fun o => (o, c.size))
 
-/-- `magnification` -/
-def SrrConfig.magnification (c : SrrConfig) : Rat := c.spotsize / (c.speed * c.scantime)
+/-- `magnification`: `self.spotsize / (self.speed * self.scantime)`, two float operations -/
+def SrrConfig.magnification (c : SrrConfig) : Rat := fl (c.spotsize / fl (c.speed * c.scantime))
+
+/-- the same quotient in exact arithmetic -/
+def SrrConfig.magnificationExact (c : SrrConfig) : Rat := c.spotsize / (c.speed * c.scantime)
 
 /-- the array form: `(spotsize, speed, scantime, warmup [s], subpixel_offsets)` -/
 structure SrrArray where
@@ -126,8 +197,93 @@ def SrrConfig.toArray (c : SrrConfig) : SrrArray :=
 def SrrConfig.fromArray (a : SrrArray) : SrrConfig :=
   SrrConfig.make a.spotsize a.speed a.scantime a.warmup a.offsets
 
+/-! ### the arrays as NumPy builds them: structured dtypes
+
+`to_array` returns a structured array: field names in order, a shape (0-d for `Config` and `SRRConfig`, `(2,)`
+for `SpotConfig`) and one record per element.  A field is a float64 scalar or (SRR `subpixel_offsets`) an
+integer sub-array of shape `(k, 2)`.  `from_array` reads fields *by name* (`array["speed"]`, or the keyword
+arguments `{name: array[name]}`), so any array with the right names is accepted, whatever the order and whatever
+else it holds.  Arrays of two or more dimensions are outside the model. -/
+
+inductive FVal
+  | num (v : Rat)
+  | table (rows : List (Int × Int))
+  deriving DecidableEq, Repr
+
+structure RecArr where
+  names : List String
+  /-- `none`: 0-d; `some n`: shape `(n,)` -/
+  dim : Option Nat
+  /-- one record per element (one for a 0-d array), each with one value per name -/
+  recs : List (List FVal)
+  deriving DecidableEq, Repr
+
+/-- what the real call raises; `unmodelled` = the input is outside the modelled arrays, nothing is claimed -/
+inductive ArrErr | valueError | typeError | indexError | unmodelled
+  deriving DecidableEq, Repr
+
+/-- position of a field name in the dtype -/
+def RecArr.fieldIdx (a : RecArr) (name : String) : Option Nat :=
+  let i := a.names.findIdx (· == name)
+  if i < a.names.length then some i else none
+
+/-- `array[name]`: the column of that field (ValueError "no field of name …"), with the array's shape -/
+def RecArr.field (a : RecArr) (name : String) : Except ArrErr (List FVal) :=
+  match a.fieldIdx name with
+  | some i => .ok (a.recs.map (fun r => r.getD i (.num 0)))
+  | none => .error .valueError
+
+/-- `float(array[name])`: only a 0-d array of one number converts (NumPy ≥ 2.x: TypeError otherwise) -/
+def RecArr.floatField (a : RecArr) (name : String) : Except ArrErr Rat := do
+  let col ← a.field name
+  match a.dim, col with
+  | none, [.num v] => pure v
+  | _, _ => throw .typeError
+
+def srrNames : List String := ["spotsize", "speed", "scantime", "warmup", "subpixel_offsets"]
+
+/-- `SRRConfig.to_array`: a 0-d record of the four floats and the `(k, 2)` integer table of the getter -/
+def SrrConfig.toRec (c : SrrConfig) : RecArr :=
+  let a := c.toArray
+  { names := srrNames, dim := none,
+    recs := [[.num a.spotsize, .num a.speed, .num a.scantime, .num a.warmup,
+              .table (a.offsets.map (fun p => ((p.1 : Int), (p.2 : Int))))]] }
+
+/-- one keyword argument of `SRRConfig(**{name: array[name]})`: the default when the array has no such field -/
+def kwNum (a : RecArr) (r : List FVal) (name : String) (dflt : Rat) : Except ArrErr Rat :=
+  match a.fieldIdx name with
+  | none => pure dflt
+  | some i => match r.getD i (.num 0) with
+    | .num v => pure v
+    | .table _ => throw .unmodelled
+
+/-- `SRRConfig.from_array`: `cls(**{name: array[name] for name in array.dtype.names})`.  A name that is no
+parameter of `__init__` is a TypeError; a missing one takes the default (35, 140, 0.25, 12.5, ((0,2),(1,2)));
+an offsets value that is not 2-d (a scalar, or the getter's empty array) is the setter's ValueError.
+Only 0-d arrays with a non-zero scan time and non-negative integers in the table are modelled. -/
+def SrrConfig.fromRec (a : RecArr) : Except ArrErr SrrConfig :=
+  match a.dim, a.recs with
+  | none, [r] =>
+    if a.names.any (fun n => !srrNames.contains n) then throw .typeError else do
+    let spotsize ← kwNum a r "spotsize" 35
+    let speed ← kwNum a r "speed" 140
+    let scantime ← kwNum a r "scantime" (1 / 4)
+    let warmup ← kwNum a r "warmup" (25 / 2)
+    if scantime = 0 then throw .unmodelled
+    let pairs ← (match a.fieldIdx "subpixel_offsets" with
+      | none => pure [(0, 2), (1, 2)]
+      | some i => match r.getD i (.num 0) with
+        | .num _ => throw .valueError
+        | .table rows =>
+          if rows.isEmpty then throw .valueError
+          else if rows.all (fun p => decide (0 ≤ p.1) && decide (0 ≤ p.2)) then
+            pure (rows.map (fun p => (p.1.toNat, p.2.toNat)))
+          else throw .unmodelled : Except ArrErr (List (Nat × Nat)))
+    pure (SrrConfig.make spotsize speed scantime warmup pairs)
+  | _, _ => throw .unmodelled
+
 /-- `np.round(1.0 / mag if mag < 1.0 else mag).astype(int)`; `m` is the value of `magnification` -/
-def magInt (m : Rat) : Nat := (roundHalfEven (if m < 1 then 1 / m else m)).toNat
+def magInt (m : Rat) : Nat := (roundHalfEven (if m < 1 then fl (1 / m) else m)).toNat
 
 /-- `mag_axis = 0 if magnification >= 1.0 else 1` -/
 def magAxis (m : Rat) : Nat := if 1 ≤ m then 0 else 1
@@ -248,6 +404,30 @@ def meanDepth (a : Arr3 Rat) : Arr2 Rat :=
 def getFlat (c : SrrConfig) (m : Rat) (layers : List (Arr2 Rat)) : Option (Arr2 Rat) :=
   (krisskross 0 c m layers).map meanDepth
 
+/-- what `SRRLaser.get` returns: a 2-d image or the 3-d reconstruction -/
+inductive GetOut (α : Type)
+  | img (a : Arr2 α)
+  | stack (a : Arr3 α)
+
+/-- `SRRLaser.get(layer=…, flat=…)` (one element or all, no extent, no calibration) as the code runs:
+`data = self.data[layer].copy()`, `.T` when `layer % 2 == 1`, else `data = self.krisskross()`; at the end
+`if flat and data.ndim > 2: data = np.mean(data, axis=2)` (`mean` stands for that NumPy call).
+`none`: the layer does not exist (IndexError) or the reconstruction raises.  Negative layer numbers are not
+modelled. -/
+def srrGet {α : Type} (z : α) (mean : Arr3 α → Arr2 α) (c : SrrConfig) (m : Rat) (layers : List (Arr2 α))
+    (layer : Option Nat) (flat : Bool) : Option (GetOut α) :=
+  let data : Option (GetOut α) :=
+    match layer with
+    | some i =>
+      (match layers[i]? with
+       | some a => some (.img (if i % 2 = 1 then a.T else a))
+       | none => none)
+    | none => (krisskross z c m layers).map .stack
+  data.map (fun d =>
+    match d with
+    | .stack a => if flat then .img (mean a) else .stack a
+    | .img a => .img a)
+
 /-! ## specification: the geometric model -/
 
 /-- a crossed stack: at least two layers, even layers are `l0 × s0`, odd layers `l1 × s1` -/
@@ -303,6 +483,18 @@ def voxelInRange {α : Type} (l0 l1 mag p w : Nat) (offs : List Nat) (layers : L
       decide (s.1 < l.rows) && decide (s.2 < l.cols)
     else true
   | none => false
+
+/-- the specification of acceptance, for a crossed stack (even layers `l0 × s0`, odd layers `l1 × s1`), warm-up
+`w` samples and integer magnification `M`: the warm-up is not negative and every line holds the warm-up and the
+samples the geometric model reads from it (`valid_iff_evaluable`: exactly when every source index exists) -/
+def validSpec (w : Int) (M l0 s0 l1 s1 : Nat) : Bool :=
+  decide (0 ≤ w) && decide (w + ((l1 * M : Nat) : Int) ≤ (s0 : Int)) && decide (w + ((l0 * M : Nat) : Int) ≤ (s1 : Int))
+
+/-- the specification of a single-layer read, pixel by pixel: pixel `(r, cc)` of the result is pixel `(r, cc)`
+of the stored layer, `(cc, r)` for odd layers; nothing is trimmed, stretched or shifted -/
+def layerSpec {α : Type} (l : Arr2 α) (i : Nat) : Arr2 α :=
+  if i % 2 = 0 then { rows := l.rows, cols := l.cols, get := fun r cc => l.get r cc }
+  else { rows := l.cols, cols := l.rows, get := fun r cc => l.get cc r }
 
 /-- flattened image prescribed by the model: the mean over layers of the voxels -/
 def flatSpec (l0 l1 mag p w : Nat) (offs : List Nat) (layers : List (Arr2 Rat)) (r cc : Nat) : Rat :=
